@@ -246,6 +246,13 @@ fn handle(req: &Value) -> Value {
             let w = &g.deleverage_withdraw_window_cache;
             json!({"ok": r.is_ok(), "daily_limit": w.daily_limit, "withdrawn_today": w.withdrawn_today, "last_reset": w.last_daily_reset_timestamp})
         }
+        "pre_fee_amount" => {
+            use anchor_spl::token_2022::spl_token_2022::extension::transfer_fee::TransferFee;
+            let tf = TransferFee { epoch: 0u64.into(), maximum_fee: (i128v(&req["max_fee"]) as u64).into(), transfer_fee_basis_points: (i128v(&req["bps"]) as u16).into() };
+            let r = marginfi::utils::calculate_pre_fee_amount(&tf, i128v(&req["post"]) as u64);
+            let fee = r.and_then(|p| tf.calculate_fee(p));
+            json!({"pre": r.map(|x| x.to_string()), "spl_fee_of_pre": fee.map(|x| x.to_string())})
+        }
         "remaining_deposit_capacity" => {
             let bank = mk_bank(req.get("bank"));
             match bank.get_remaining_deposit_capacity() {
